@@ -1,1 +1,1869 @@
-// placeholder: c12 monitors (not built yet)
+// C12 Privacy noise and dummy records follow the documented (epsilon, delta) law.
+//
+// This file is included as `crate::protocol::dp::verif_dp::c12` (hook H4), hence `super::super::X` reaches the
+// private items of protocol/dp/mod.rs (the shifted noise sampler).
+//
+// Monitors
+//  (1) verif_c12_truncation_point : OPRFPaddingDp::get_shift() vs an independent n* (closed-form geometric sums in
+//      f64 here, re-computed with 60 digits by lib/dp_ref.py which this test runs as a sub-process); parameters
+//      whose decision margin is below 1e-9 (or where the two references disagree) are boundary-ambiguous: counted,
+//      skipped, never an alarm.
+//  (2) verif_c12_scripted_sampler : a scripted RngCore decides every Bernoulli trial inside Geometric /
+//      DoubleGeometric / TruncatedDoubleGeometric; every (attempts1, attempts2) path is enumerated, the output and
+//      the accept/reject decision are observed exactly, the Bernoulli threshold is read back by bisection and
+//      compared with 1-exp(-eps); the pmf on 0..2n follows arithmetically.
+//      verif_c12_chi2_evidence : seeded real-RNG chi-square, evidence only (alarm at p < 1e-12).
+//  (3) verif_c12_share_mapping : ShiftedTruncatedDiscreteLaplace::sample_shares driven to every support point at
+//      widths 8/16/32: the two generated shares reconstruct to (x-n) mod 2^w, zero share on the excluded side.
+//  (4) verif_c12_constructors, verif_c12_hist_eps_range : accept/reject grids vs the conditions the constructors
+//      state in their doc comments / error texts.
+//  (5) verif_c12_padding_rows, verif_c12_noise_passes : three in-memory helpers (TestWorld, paused clock).
+
+use std::{
+    collections::{BTreeMap, BTreeSet},
+    io::Write as _,
+    time::Duration,
+};
+
+use rand::distributions::Distribution;
+use serde_json::{Value, json};
+
+use super::super::{NoiseParams, ShiftedTruncatedDiscreteLaplace};
+use crate::{
+    ff::{
+        U128Conversions,
+        boolean_array::{BA8, BA16, BA32, BooleanArray},
+    },
+    helpers::Direction,
+    protocol::ipa_prf::oprf_padding::{
+        distributions::{DoubleGeometric, Geometric, TruncatedDoubleGeometric},
+        insecure::OPRFPaddingDp,
+    },
+    secret_sharing::replicated::{ReplicatedSecretSharing, semi_honest::AdditiveShare as Replicated},
+    verif::vlib::{self, Recorder, VRng, catch},
+};
+
+const P: &str = "C12";
+
+// ---------------------------------------------------------------------------------------------
+// the documented grid
+// ---------------------------------------------------------------------------------------------
+
+const EPS_GRID: [f64; 12] = [0.01, 0.02, 0.05, 0.1, 0.25, 0.5, 1.0, 2.0, 3.5, 5.0, 10.0, 20.0];
+const DELTA_GRID: [f64; 8] = [1e-12, 1e-10, 1e-9, 1e-8, 1e-7, 1e-6, 1e-4, 1e-2];
+const SENS_GRID: [u32; 6] = [1, 2, 3, 10, 100, 1000];
+const AMBIGUITY: f64 = 1e-9;
+
+fn replay_case() -> Option<usize> {
+    let p = vlib::env().replay?;
+    let w: Value = serde_json::from_str(&std::fs::read_to_string(p).ok()?).ok()?;
+    w["witness"]["case"].as_u64().map(|v| v as usize)
+}
+
+// ---------------------------------------------------------------------------------------------
+// (1) reference for the truncation point
+// ---------------------------------------------------------------------------------------------
+
+/// Total probability of the `sens` outermost support points on one side of the law
+/// Pr(x) = A r^|n-x| on 0..2n (r = e^-eps, A = (1-r)/(1+r-2r^(n+1))):
+/// A * sum_{k=n-sens+1}^{n} r^k = r^(n-sens+1) (1-r^sens) / ((1-r^(n+1)) + r (1-r^n)).
+/// Closed form; every difference of the shape 1-r^k is evaluated with exp_m1 (no cancellation).
+fn tail_f64(eps: f64, n: u32, sens: u32) -> f64 {
+    let one_minus_r_pow = |k: f64| -(-eps * k).exp_m1();
+    let num = (-eps * f64::from(n - sens + 1)).exp() * one_minus_r_pow(f64::from(sens));
+    let den = one_minus_r_pow(f64::from(n + 1)) + (-eps).exp() * one_minus_r_pow(f64::from(n));
+    num / den
+}
+
+/// Smallest n >= sens with tail(n) <= delta (tail is strictly decreasing in n), plus the two decision margins
+/// (delta - tail(n*))/delta and (tail(n*-1) - delta)/delta (infinite when n* = sens).
+fn smallest_n_f64(eps: f64, delta: f64, sens: u32) -> (u32, f64, f64) {
+    let n = if tail_f64(eps, sens, sens) <= delta {
+        sens
+    } else {
+        let mut lo = sens;
+        let mut hi = (2 * sens).max(2);
+        while tail_f64(eps, hi, sens) > delta {
+            lo = hi;
+            hi *= 2;
+            assert!(hi < (1 << 30), "reference: no truncation point below 2^30");
+        }
+        while hi - lo > 1 {
+            let mid = lo + (hi - lo) / 2;
+            if tail_f64(eps, mid, sens) <= delta {
+                hi = mid;
+            } else {
+                lo = mid;
+            }
+        }
+        hi
+    };
+    let m_hi = (delta - tail_f64(eps, n, sens)) / delta;
+    let m_lo = if n == sens { f64::INFINITY } else { (tail_f64(eps, n - 1, sens) - delta) / delta };
+    (n, m_hi, m_lo)
+}
+
+struct PyRef {
+    n: u32,
+    m_hi: f64,
+    m_lo: f64,
+}
+
+/// Run lib/dp_ref.py (python `decimal`, 60 digits) on the given points. Err = could not be run.
+fn python_reference(points: &[(f64, f64, u32)]) -> Result<Vec<PyRef>, String> {
+    use std::process::{Command, Stdio};
+    let script = concat!(env!("IPA_VERIF_DIR"), "/lib/dp_ref.py");
+    let mut child = Command::new("python3")
+        .arg(script)
+        .arg("--stdin")
+        .stdin(Stdio::piped())
+        .stdout(Stdio::piped())
+        .stderr(Stdio::piped())
+        .spawn()
+        .map_err(|e| format!("cannot start python3 {script}: {e}"))?;
+    {
+        let mut stdin = child.stdin.take().unwrap();
+        let mut text = String::new();
+        for (e, d, s) in points {
+            text.push_str(&format!("{:016x} {:016x} {}\n", e.to_bits(), d.to_bits(), s));
+        }
+        stdin.write_all(text.as_bytes()).map_err(|e| format!("write to dp_ref.py: {e}"))?;
+    }
+    let out = child.wait_with_output().map_err(|e| format!("dp_ref.py: {e}"))?;
+    if !out.status.success() {
+        return Err(format!(
+            "dp_ref.py exit {:?}: {}",
+            out.status.code(),
+            String::from_utf8_lossy(&out.stderr).chars().take(300).collect::<String>()
+        ));
+    }
+    let mut res = Vec::new();
+    for ln in String::from_utf8_lossy(&out.stdout).lines() {
+        let p: Vec<&str> = ln.split_whitespace().collect();
+        if p.len() != 3 {
+            continue;
+        }
+        let f = |s: &str| if s == "inf" { Ok(f64::INFINITY) } else { s.parse::<f64>().map_err(|e| e.to_string()) };
+        res.push(PyRef { n: p[0].parse().map_err(|e| format!("{e}"))?, m_hi: f(p[1])?, m_lo: f(p[2])? });
+    }
+    if res.len() != points.len() {
+        return Err(format!("dp_ref.py answered {} of {} points", res.len(), points.len()));
+    }
+    Ok(res)
+}
+
+const TIE_POINTS: usize = 72;
+
+/// Grid point #idx: the documented 12 x 8 x 6 grid first, then 72 constructed points whose delta is (up to a factor
+/// 1, 1+1e-6, 1-1e-6) the tail mass of some n0 itself (exact ties must be classified boundary-ambiguous, near ties must be
+/// decided correctly), then seeded log-uniform points.
+fn grid_point(idx: usize, seed: u64) -> (f64, f64, u32, &'static str) {
+    let base = EPS_GRID.len() * DELTA_GRID.len() * SENS_GRID.len();
+    if idx < base {
+        let s = SENS_GRID[idx % SENS_GRID.len()];
+        let d = DELTA_GRID[(idx / SENS_GRID.len()) % DELTA_GRID.len()];
+        let e = EPS_GRID[idx / (SENS_GRID.len() * DELTA_GRID.len())];
+        (e, d, s, "grid")
+    } else if idx < base + TIE_POINTS {
+        let j = idx - base;
+        let e = EPS_GRID[j % 12];
+        let s = [1u32, 7][(j / 12) % 2];
+        let (n0, _, _) = smallest_n_f64(e, 1e-6, s);
+        let t = tail_f64(e, n0 + 2, s);
+        match j / 24 {
+            0 => (e, t, s, "constructed_tie"),
+            1 => (e, t * (1.0 + 1e-6), s, "near_tie_above"),
+            _ => (e, t * (1.0 - 1e-6), s, "near_tie_below"),
+        }
+    } else {
+        let mut r = VRng::new(seed ^ 0xC12_0001, idx as u64);
+        let u = |r: &mut VRng| (r.next() >> 11) as f64 / (1u64 << 53) as f64;
+        let e = 0.01 * (2000.0f64).powf(u(&mut r)); // [0.01, 20]
+        let d = 1e-12 * (1e10f64).powf(u(&mut r)); // [1e-12, 1e-2]
+        let s = match r.below(4) {
+            0 => 1 + r.below(4) as u32,
+            1 => 1 + r.below(30) as u32,
+            _ => 1 + r.below(1000) as u32,
+        };
+        (e, d, s, "seeded")
+    }
+}
+
+#[test]
+fn verif_c12_truncation_point() {
+    let env = vlib::env();
+    let mut rec = Recorder::new(P, "verif_c12_truncation_point");
+    let base = EPS_GRID.len() * DELTA_GRID.len() * SENS_GRID.len();
+    let total = base + TIE_POINTS + env.pick(1200, 30_000);
+    let only = replay_case();
+    let mine: Vec<usize> = (0..total).filter(|i| env.mine(*i) && only.is_none_or(|c| c == *i)).collect();
+    let pts: Vec<(f64, f64, u32)> = mine
+        .iter()
+        .map(|i| {
+            let (e, d, s, _) = grid_point(*i, env.seed);
+            (e, d, s)
+        })
+        .collect();
+    let py = match python_reference(&pts) {
+        Ok(v) => v,
+        Err(e) => {
+            rec.inconclusive(format!("60-digit reference unavailable: {e}"));
+            rec.finish();
+            return;
+        }
+    };
+    let side = std::env::var("VERIF_WITNESS").ok().map(|w| format!("{w}/../c12_grid.{}.jsonl", env.shard));
+    let mut side_text = String::new();
+    for ((idx, (eps, delta, sens)), pyr) in mine.iter().zip(pts.iter().copied()).zip(&py) {
+        let (_, _, _, origin) = grid_point(*idx, env.seed);
+        rec.eval();
+        let (n_ref, m_hi, m_lo) = smallest_n_f64(eps, delta, sens);
+        let code = catch(|| OPRFPaddingDp::new(eps, delta, sens).map(|d| d.get_shift()));
+        let margin = m_hi.min(m_lo).min(pyr.m_hi).min(pyr.m_lo);
+        let class = if n_ref != pyr.n {
+            "references_disagree"
+        } else if !(margin >= AMBIGUITY) {
+            "boundary_ambiguous"
+        } else {
+            "decided"
+        };
+        let n_code: Option<u32> = match &code {
+            Ok(Ok(n)) => Some(*n),
+            _ => None,
+        };
+        side_text.push_str(
+            &json!({"case": idx, "eps": eps, "delta": delta, "sens": sens,
+                    "eps_bits": format!("{:016x}", eps.to_bits()), "delta_bits": format!("{:016x}", delta.to_bits()),
+                    "n_ref_f64": n_ref, "n_ref_py": pyr.n, "n_code": n_code, "margin": margin, "class": class})
+            .to_string(),
+        );
+        side_text.push('\n');
+        rec.seen("truncation_classes", class);
+        if class != "decided" {
+            rec.count(if class == "boundary_ambiguous" { "truncation_boundary_ambiguous_skipped" } else { "truncation_references_disagree_skipped" });
+            continue;
+        }
+        let witness = json!({"case": idx, "epsilon": eps, "delta": delta, "sensitivity": sens, "n_reference": n_ref,
+                             "n_reference_60_digits": pyr.n, "code": format!("{code:?}"),
+                             "tail_at_reference": tail_f64(eps, n_ref, sens),
+                             "tail_below_reference": if n_ref > sens { json!(tail_f64(eps, n_ref - 1, sens)) } else { Value::Null },
+                             "decision_margin": margin});
+        match code {
+            Ok(Ok(n)) if n == n_ref => {
+                rec.count("truncation_point_equal");
+                rec.distinct(&(eps.to_bits(), delta.to_bits(), sens));
+                if rec.want_sample() {
+                    rec.sample(serde_json::json!({"truncation_point_case": {"epsilon": eps, "delta": delta, "sensitivity": sens}}));
+                }
+                rec.seen("truncation_origin", origin);
+                if n == sens {
+                    rec.count("truncation_point_at_sensitivity_floor");
+                }
+                if rec.want_sample() && idx % 97 == 5 {
+                    rec.sample(json!({"case": idx, "epsilon": eps, "delta": delta, "sensitivity": sens, "n": n,
+                                      "achieved_delta": tail_f64(eps, n, sens), "margin": margin}));
+                }
+            }
+            Ok(Ok(n)) => rec.violation(
+                "get_shift() is not the smallest truncation point whose tail mass is <= delta",
+                json!({"kind": "truncation_point", "direction": if n < n_ref { "too_small" } else { "too_large" },
+                       "off_by_one": n.abs_diff(n_ref) == 1}),
+                witness,
+            ),
+            Ok(Err(e)) => rec.violation(
+                "OPRFPaddingDp::new rejected parameters inside the documented range",
+                json!({"kind": "constructor_range", "ctor": "OPRFPaddingDp::new", "param": "grid",
+                       "error": format!("{e:?}").chars().take(40).collect::<String>()}),
+                witness,
+            ),
+            Err(p) => rec.violation(
+                "panic while constructing OPRFPaddingDp inside the documented range",
+                json!({"kind": "panic", "ctor": "OPRFPaddingDp::new"}),
+                json!({"case": idx, "epsilon": eps, "delta": delta, "sensitivity": sens, "panic": p}),
+            ),
+        }
+    }
+    if let Some(p) = side {
+        let _ = std::fs::write(p, side_text);
+    }
+    rec.finish();
+}
+
+// ---------------------------------------------------------------------------------------------
+// (2) scripted randomness
+// ---------------------------------------------------------------------------------------------
+
+const FAIL: u64 = u64::MAX; // v < p_int is false for every threshold
+const SUCC: u64 = 0; // v < p_int is true for every positive threshold
+
+/// Deterministic RngCore: hands out the scripted 64-bit words, then `SUCC` forever. rand's Bernoulli draws exactly
+/// one u64 `v` per trial and succeeds iff v < floor(p * 2^64); any other use of the RNG is recorded in `other`.
+struct Script {
+    vals: Vec<u64>,
+    pos: usize,
+    draws: u64,
+    other: u64,
+}
+impl Script {
+    fn new(vals: Vec<u64>) -> Self {
+        Script { vals, pos: 0, draws: 0, other: 0 }
+    }
+    /// a1 failures, success, a2 failures, success
+    fn path(a1: u32, a2: u32) -> Self {
+        let mut v = Vec::with_capacity((a1 + a2 + 2) as usize);
+        v.extend(std::iter::repeat_n(FAIL, a1 as usize));
+        v.push(SUCC);
+        v.extend(std::iter::repeat_n(FAIL, a2 as usize));
+        v.push(SUCC);
+        Script::new(v)
+    }
+}
+impl rand::RngCore for Script {
+    fn next_u32(&mut self) -> u32 {
+        self.other += 1;
+        0
+    }
+    fn next_u64(&mut self) -> u64 {
+        self.draws += 1;
+        let v = self.vals.get(self.pos).copied().unwrap_or(SUCC);
+        self.pos += 1;
+        v
+    }
+    fn fill_bytes(&mut self, dest: &mut [u8]) {
+        self.other += 1;
+        dest.fill(0);
+    }
+    fn try_fill_bytes(&mut self, dest: &mut [u8]) -> Result<(), rand::Error> {
+        self.fill_bytes(dest);
+        Ok(())
+    }
+}
+impl rand::CryptoRng for Script {}
+
+/// Smallest v for which the trial at script position `prefix.len()` fails (= the integer threshold of the
+/// Bernoulli), found by bisection on the observable (output, number of draws). None = no v fails.
+fn read_threshold(prefix: &[u64], run: &dyn Fn(&mut Script) -> i64) -> Option<u64> {
+    let obs = |v: u64| {
+        let mut s = Script::new(prefix.iter().copied().chain(std::iter::once(v)).collect());
+        let out = run(&mut s);
+        (out, s.draws)
+    };
+    let success = obs(SUCC);
+    if obs(FAIL) == success {
+        return None;
+    }
+    // invariant: obs(lo) == success, obs(hi) != success
+    let (mut lo, mut hi) = (0u64, u64::MAX);
+    while hi - lo > 1 {
+        let mid = lo + (hi - lo) / 2;
+        if obs(mid) == success {
+            lo = mid;
+        } else {
+            hi = mid;
+        }
+    }
+    Some(hi)
+}
+
+fn two_pow_64() -> f64 {
+    18_446_744_073_709_551_616.0
+}
+
+struct SamplerCfg {
+    eps: f64,
+    /// explicit truncation point (direct TruncatedDoubleGeometric) or (delta, sensitivity) through OPRFPaddingDp
+    n: Option<u32>,
+    dp: Option<(f64, u32)>,
+}
+
+fn sampler_cfgs(thorough: bool) -> Vec<SamplerCfg> {
+    let mut v = Vec::new();
+    let ns: &[u32] = if thorough { &[0, 1, 2, 3, 4, 5, 8, 13, 21, 34, 55, 89] } else { &[0, 1, 2, 3, 5, 8, 13, 25, 40] };
+    let epss: &[f64] = if thorough { &EPS_GRID } else { &[0.01, 0.1, 0.5, 1.0, 2.0, 5.0, 10.0, 20.0] };
+    for e in epss {
+        for n in ns {
+            v.push(SamplerCfg { eps: *e, n: Some(*n), dp: None });
+        }
+    }
+    // through OPRFPaddingDp::new / sample (the production entry point), incl. the production defaults
+    let dps: &[(f64, f64, u32)] = if thorough {
+        &[(5.0, 1e-6, 2), (5.0, 1e-6, 10), (10.0, 1e-4, 3), (10.0, 1e-4, 2), (1.0, 1e-6, 8), (1.0, 1e-6, 10), (0.5, 1e-7, 1),
+          (0.1, 1e-6, 1), (0.1, 1e-8, 100), (0.05, 1e-9, 10), (0.01, 1e-6, 8), (0.01, 1e-8, 1000), (20.0, 1e-12, 1),
+          (2.0, 1e-9, 1000), (0.25, 1e-10, 3)]
+    } else {
+        &[(5.0, 1e-6, 2), (5.0, 1e-6, 10), (10.0, 1e-4, 3), (10.0, 1e-4, 2), (1.0, 1e-6, 8), (0.1, 1e-6, 1), (0.05, 1e-9, 10),
+          (0.01, 1e-6, 8)]
+    };
+    for (e, d, s) in dps {
+        v.push(SamplerCfg { eps: *e, n: None, dp: Some((*d, *s)) });
+    }
+    v
+}
+
+enum Sampler {
+    Direct(TruncatedDoubleGeometric),
+    Dp(OPRFPaddingDp),
+}
+impl Sampler {
+    fn sample(&self, s: &mut Script) -> u32 {
+        match self {
+            Sampler::Direct(t) => t.sample(s),
+            Sampler::Dp(d) => d.sample(s),
+        }
+    }
+}
+
+#[test]
+fn verif_c12_scripted_sampler() {
+    let env = vlib::env();
+    let mut rec = Recorder::new(P, "verif_c12_scripted_sampler");
+    let only = replay_case();
+    let cfgs = sampler_cfgs(env.thorough);
+    let mut protocol_ok = true;
+
+    // ---- (a) Geometric and DoubleGeometric directly -------------------------------------------------
+    let probs: &[f64] = &[0.5, 0.25, 0.009_950_166_250_831_893, 0.999_999_997_938_846_4, 1e-9, 0.632_120_558_828_557_7];
+    for (ci, p) in probs.iter().enumerate() {
+        let case = 10_000 + ci;
+        if !env.mine(case) || only.is_some_and(|c| c != case) {
+            continue;
+        }
+        let g = match Geometric::new(*p) {
+            Ok(g) => g,
+            Err(e) => {
+                rec.violation("Geometric::new rejected a probability in (0,1)", json!({"kind": "constructor_range", "ctor": "Geometric::new"}),
+                              json!({"case": case, "p": p, "error": format!("{e:?}")}));
+                continue;
+            }
+        };
+        // number of failures before the first success, for scripted failure counts
+        for a in (0..60u32).chain([100, 1000, 20_000]) {
+            rec.eval();
+            let mut s = Script::path(a, 0);
+            let out = catch(|| g.sample(&mut s));
+            if s.other > 0 {
+                protocol_ok = false;
+            }
+            if out == Ok(a) && s.draws == u64::from(a) + 1 {
+                rec.count("geometric_paths_exact");
+                rec.distinct(&("geo", ci, a));
+            } else {
+                rec.violation("Geometric::sample did not return the number of failed trials before the first success",
+                              json!({"kind": "geometric_count"}), json!({"case": case, "p": p, "failures": a, "got": format!("{out:?}"), "draws": s.draws}));
+            }
+        }
+        // threshold of the k-th trial
+        for k in [0usize, 1, 5] {
+            rec.eval();
+            let prefix = vec![FAIL; k];
+            let t = read_threshold(&prefix, &|s| i64::from(g.sample(s)));
+            let p_obs = t.map_or(1.0, |t| t as f64 / two_pow_64());
+            if (p_obs - p).abs() <= 1e-12 * p + 2.0 / two_pow_64() {
+                rec.count("bernoulli_threshold_read");
+                rec.distinct(&("geo-thr", ci, k));
+            } else {
+                rec.violation("Bernoulli threshold of Geometric differs from the requested success probability",
+                              json!({"kind": "bernoulli_threshold", "where": "Geometric"}),
+                              json!({"case": case, "p": p, "trial": k, "threshold": t, "p_observed": p_obs}));
+            }
+        }
+    }
+    for (ci, (eps, shift)) in [(1.0f64, 0u32), (0.5, 7), (5.0, 3), (0.01, 100), (20.0, 1), (2.0, 1_000_000)].iter().enumerate() {
+        let case = 11_000 + ci;
+        if !env.mine(case) || only.is_some_and(|c| c != case) {
+            continue;
+        }
+        let dg = match DoubleGeometric::new(1.0 / eps, *shift) {
+            Ok(d) => d,
+            Err(e) => {
+                rec.violation("DoubleGeometric::new rejected valid parameters", json!({"kind": "constructor_range", "ctor": "DoubleGeometric::new"}),
+                              json!({"case": case, "eps": eps, "shift": shift, "error": format!("{e:?}")}));
+                continue;
+            }
+        };
+        let lim = 24u32;
+        for a1 in 0..=lim {
+            for a2 in 0..=lim {
+                rec.eval();
+                let mut s = Script::path(a1, a2);
+                let out = catch(|| dg.sample(&mut s));
+                if s.other > 0 {
+                    protocol_ok = false;
+                }
+                let want = i64::from(*shift) + i64::from(a1) - i64::from(a2);
+                if out.as_ref().map(|v| i64::from(*v)) == Ok(want) && s.draws == u64::from(a1 + a2) + 2 {
+                    rec.count("double_geometric_paths_exact");
+                    rec.distinct(&("dg", ci, a1, a2));
+                } else {
+                    rec.violation("DoubleGeometric::sample is not shift + attempts1 - attempts2",
+                                  json!({"kind": "double_geometric_value"}),
+                                  json!({"case": case, "eps": eps, "shift": shift, "a1": a1, "a2": a2, "got": format!("{out:?}"), "draws": s.draws}));
+                }
+            }
+        }
+        rec.eval();
+        let p_ref = -(-eps).exp_m1();
+        for (name, prefix) in [("first_trial_of_x1", vec![]), ("second_trial_of_x1", vec![FAIL]), ("first_trial_of_x2", vec![SUCC]),
+                               ("third_trial_of_x2", vec![FAIL, SUCC, FAIL, FAIL])] {
+            let t = read_threshold(&prefix, &|s| i64::from(dg.sample(s)));
+            let p_obs = t.map_or(1.0, |t| t as f64 / two_pow_64());
+            if (p_obs - p_ref).abs() <= 1e-11 * p_ref {
+                rec.count("bernoulli_threshold_read");
+                rec.distinct(&("dg-thr", ci, name));
+            } else {
+                rec.violation("Bernoulli threshold inside DoubleGeometric is not 1 - exp(-epsilon)",
+                              json!({"kind": "bernoulli_threshold", "where": "DoubleGeometric", "trial": name}),
+                              json!({"case": case, "eps": eps, "threshold": t, "p_observed": p_obs, "p_reference": p_ref}));
+            }
+        }
+    }
+
+    // ---- (b) the truncated sampler: every path --------------------------------------------------------
+    for (ci, cfg) in cfgs.iter().enumerate() {
+        if !env.mine(ci) || only.is_some_and(|c| c != ci) {
+            continue;
+        }
+        let eps = cfg.eps;
+        let desc = json!({"case": ci, "epsilon": eps, "n": cfg.n, "delta_sensitivity": cfg.dp.map(|(d, s)| json!([d, s]))});
+        let built = catch(|| match (cfg.n, cfg.dp) {
+            (Some(n), _) => TruncatedDoubleGeometric::new(1.0 / eps, n).map(|t| (Sampler::Direct(t), n)),
+            (None, Some((d, s))) => OPRFPaddingDp::new(eps, d, s).map(|p| {
+                let n = p.get_shift();
+                (Sampler::Dp(p), n)
+            }),
+            _ => unreachable!(),
+        });
+        let (sampler, n) = match built {
+            Ok(Ok(x)) => x,
+            o => {
+                rec.eval();
+                rec.violation("sampler could not be constructed for parameters inside the documented range",
+                              json!({"kind": "constructor_range", "ctor": if cfg.n.is_some() { "TruncatedDoubleGeometric::new" } else { "OPRFPaddingDp::new" }, "param": "grid"}),
+                              json!({"desc": desc, "case": ci, "outcome": format!("{:?}", o.map(|r| r.map(|_| ())))}));
+                continue;
+            }
+        };
+        rec.seen("sampler_entry_points", if cfg.n.is_some() { "TruncatedDoubleGeometric" } else { "OPRFPaddingDp" });
+        let ni = i64::from(n);
+        let full = n <= 60;
+        // enumeration bound: K = 2n+2 failures per geometric (full) or the diagonal band |d| <= n+3 with three depths
+        let k_max = 2 * n + 2;
+        let mut paths: Vec<(u32, u32)> = Vec::new();
+        if full {
+            for a1 in 0..=k_max {
+                for a2 in 0..=k_max {
+                    paths.push((a1, a2));
+                }
+            }
+        } else {
+            for d in -(ni + 3)..=(ni + 3) {
+                for k in [0u32, 1, 7] {
+                    paths.push((d.max(0) as u32 + k, (-d).max(0) as u32 + k));
+                }
+            }
+        }
+        let q = (-eps).exp();
+        let mut mass: BTreeMap<i64, f64> = BTreeMap::new(); // observed output -> sum of q^(a1+a2) over accepted paths
+        let mut reached: BTreeSet<i64> = BTreeSet::new();
+        let mut bad = 0usize;
+        for (a1, a2) in &paths {
+            let (a1, a2) = (*a1, *a2);
+            rec.eval();
+            let mut s = Script::path(a1, a2);
+            let out = catch(|| sampler.sample(&mut s));
+            if s.other > 0 {
+                protocol_ok = false;
+            }
+            let x = ni + i64::from(a1) - i64::from(a2);
+            let inside = (0..=2 * ni).contains(&x);
+            let base_draws = u64::from(a1 + a2) + 2;
+            let got = out.as_ref().map(|v| i64::from(*v));
+            let accepted_now = s.draws == base_draws;
+            let retried = s.draws == base_draws + 2 && got == Ok(ni); // rejected, then the (0,0) path => n
+            let verdict = if inside {
+                if accepted_now && got == Ok(x) {
+                    *mass.entry(x).or_insert(0.0) += q.powi((a1 + a2) as i32);
+                    reached.insert(x);
+                    rec.count("truncated_paths_accepted_exact");
+                    if full {
+                        rec.distinct(&("tdg", ci, a1, a2));
+                    } else {
+                        rec.distinct(&("tdg-band", ci, x));
+                    }
+                    None
+                } else if retried && x != ni {
+                    Some("rejected_inside_support")
+                } else {
+                    Some("wrong_value")
+                }
+            } else if retried {
+                rec.count("truncated_paths_rejected_exact");
+                rec.distinct(&("tdg-rej", ci, x.clamp(-ni - 8, 3 * ni + 8)));
+                None
+            } else if accepted_now {
+                if let Ok(v) = got {
+                    reached.insert(v);
+                }
+                Some("accepted_outside_support")
+            } else {
+                Some("wrong_value")
+            };
+            if let Some(class) = verdict {
+                bad += 1;
+                if bad <= 4 {
+                    rec.violation(
+                        "truncated double-geometric sampler: output / rejection decision of a scripted path is not the documented one",
+                        json!({"kind": "sampler_path", "class": class,
+                               "at": if x == 2 * ni + 1 { "2n+1" } else if x == -1 { "-1" } else if x == 0 { "0" } else if x == 2 * ni { "2n" } else { "other" }}),
+                        json!({"desc": desc, "case": ci, "n": n, "attempts1": a1, "attempts2": a2, "expected_value": x, "inside_support": inside,
+                               "got": format!("{out:?}"), "draws": s.draws, "draws_of_the_path": base_draws}),
+                    );
+                }
+            }
+        }
+        // support: every point of 0..2n reached, nothing else
+        rec.eval();
+        let want: BTreeSet<i64> = (0..=2 * ni).collect();
+        if reached == want {
+            rec.count("support_exact");
+            rec.add("support_points_reached", reached.len() as u64);
+        } else if bad == 0 {
+            let missing: Vec<i64> = want.difference(&reached).copied().take(5).collect();
+            let extra: Vec<i64> = reached.difference(&want).copied().take(5).collect();
+            rec.violation("support of the truncated sampler is not 0..2n",
+                          json!({"kind": "support", "missing": !missing.is_empty(), "extra": !extra.is_empty()}),
+                          json!({"desc": desc, "case": ci, "n": n, "missing": missing, "extra": extra}));
+        }
+        // thresholds: first trial, a later trial of X1, first trial of X2, and a trial after a rejection
+        let p_ref = -(-eps).exp_m1();
+        let mut prefixes = vec![("first_trial_of_x1", vec![]), ("second_trial_of_x1", vec![FAIL]), ("first_trial_of_x2", vec![SUCC])];
+        {
+            // a rejected path (n+1 failures of X2) and then the first trial of the retry
+            let mut v = vec![SUCC];
+            v.extend(std::iter::repeat_n(FAIL, n as usize + 1));
+            v.push(SUCC);
+            prefixes.push(("first_trial_after_rejection", v));
+        }
+        let mut p_int_seen: Option<u64> = None;
+        for (name, prefix) in prefixes {
+            rec.eval();
+            let t = read_threshold(&prefix, &|s| i64::from(sampler.sample(s)));
+            let p_obs = t.map_or(1.0, |t| t as f64 / two_pow_64());
+            if (p_obs - p_ref).abs() <= 1e-11 * p_ref {
+                rec.count("bernoulli_threshold_read");
+                rec.distinct(&("tdg-thr", ci, name));
+                p_int_seen = t;
+            } else {
+                rec.violation("Bernoulli threshold inside the truncated sampler is not 1 - exp(-epsilon)",
+                              json!({"kind": "bernoulli_threshold", "where": "TruncatedDoubleGeometric", "trial": name}),
+                              json!({"desc": desc, "case": ci, "threshold": t, "p_observed": p_obs, "p_reference": p_ref}));
+            }
+        }
+        // pmf derived from the observed path -> value map: with independent trials of success probability 1-q the
+        // path (a1,a2) has probability (1-q)^2 q^(a1+a2); summing over the accepted paths that produced x gives
+        // q^|x-n| (1 - q^(2(K-|x-n|+1))) / (1-q^2) for the full enumeration up to K failures.
+        if full && bad == 0 {
+            rec.eval();
+            let k = f64::from(k_max);
+            let mut worst = 0.0f64;
+            for x in 0..=2 * ni {
+                let d = (x - ni).abs() as f64;
+                let expect = q.powf(d) * (1.0 - q.powf(2.0 * (k - d + 1.0))) / (1.0 - q * q);
+                let got = mass.get(&x).copied().unwrap_or(0.0);
+                worst = worst.max(((got - expect) / expect).abs());
+            }
+            if worst <= 1e-9 {
+                rec.count("pmf_derived_proportional_to_exp_minus_eps_dist");
+            } else {
+                rec.violation("pmf derived from the enumerated paths is not proportional to exp(-eps*|x-n|)",
+                              json!({"kind": "pmf_shape"}), json!({"desc": desc, "case": ci, "n": n, "worst_relative_error": worst}));
+            }
+        }
+        if rec.want_sample() {
+            rec.sample(json!({"desc": desc, "n": n, "paths_enumerated": paths.len(), "full_enumeration": full,
+                              "support_points_reached": reached.len(), "bernoulli_threshold_u64": p_int_seen,
+                              "p_reference": p_ref}));
+        }
+    }
+    if !protocol_ok {
+        rec.inconclusive("the samplers drew randomness other than one u64 per Bernoulli trial: scripted RNG protocol not applicable");
+    }
+    rec.finish();
+}
+
+// ---- chi-square evidence -------------------------------------------------------------------------
+
+fn ln_gamma(x: f64) -> f64 {
+    // Lanczos (g = 7, 9 coefficients)
+    const C: [f64; 9] = [0.999_999_999_999_809_9, 676.520_368_121_885_1, -1_259.139_216_722_402_8, 771.323_428_777_653_1,
+                         -176.615_029_162_140_6, 12.507_343_278_686_905, -0.138_571_095_265_720_12, 9.984_369_578_019_572e-6,
+                         1.505_632_735_149_311_6e-7];
+    let x = x - 1.0;
+    let mut a = C[0];
+    let t = x + 7.5;
+    for (i, c) in C.iter().enumerate().skip(1) {
+        a += c / (x + i as f64);
+    }
+    0.5 * (2.0 * std::f64::consts::PI).ln() + (x + 0.5) * t.ln() - t + a.ln()
+}
+
+/// Regularised upper incomplete gamma Q(a, x) (series / continued fraction).
+fn gamma_q(a: f64, x: f64) -> f64 {
+    if x <= 0.0 {
+        return 1.0;
+    }
+    if x < a + 1.0 {
+        let mut ap = a;
+        let mut sum = 1.0 / a;
+        let mut del = sum;
+        for _ in 0..10_000 {
+            ap += 1.0;
+            del *= x / ap;
+            sum += del;
+            if del.abs() < sum.abs() * 1e-16 {
+                break;
+            }
+        }
+        1.0 - sum * (-x + a * x.ln() - ln_gamma(a)).exp()
+    } else {
+        let tiny = 1e-300;
+        let mut b = x + 1.0 - a;
+        let mut c = 1.0 / tiny;
+        let mut d = 1.0 / b;
+        let mut h = d;
+        for i in 1..10_000 {
+            let an = -(i as f64) * (i as f64 - a);
+            b += 2.0;
+            d = an * d + b;
+            if d.abs() < tiny {
+                d = tiny;
+            }
+            c = b + an / c;
+            if c.abs() < tiny {
+                c = tiny;
+            }
+            d = 1.0 / d;
+            let del = d * c;
+            h *= del;
+            if (del - 1.0).abs() < 1e-16 {
+                break;
+            }
+        }
+        (-x + a * x.ln() - ln_gamma(a)).exp() * h
+    }
+}
+
+#[test]
+fn verif_c12_chi2_evidence() {
+    let env = vlib::env();
+    let mut rec = Recorder::new(P, "verif_c12_chi2_evidence");
+    let params: &[(f64, f64, u32)] = &[(1.0, 1e-6, 1), (0.5, 1e-6, 2), (5.0, 1e-6, 10), (0.1, 1e-6, 1), (2.0, 1e-8, 3), (0.25, 1e-4, 1),
+                                       (10.0, 1e-4, 3), (0.05, 1e-6, 10)];
+    let draws = env.pick(20_000usize, 400_000);
+    let reps = env.pick(1usize, 3);
+    for case in 0..params.len() * reps {
+        if !env.mine(case) {
+            continue;
+        }
+        let (eps, delta, sens) = params[case % params.len()];
+        let Ok(Ok(dp)) = catch(|| OPRFPaddingDp::new(eps, delta, sens)) else {
+            rec.inconclusive("chi2: sampler not constructible");
+            continue;
+        };
+        let n = dp.get_shift();
+        let mut rng = VRng::new(env.seed ^ 0xC12_C41, case as u64);
+        let mut hist = vec![0u64; 2 * n as usize + 1];
+        let mut outside = 0u64;
+        for _ in 0..draws {
+            let x = dp.sample(&mut rng) as usize;
+            if x < hist.len() {
+                hist[x] += 1;
+            } else {
+                outside += 1;
+            }
+        }
+        rec.evals(draws as u64);
+        rec.add("real_rng_samples", draws as u64);
+        if outside > 0 {
+            rec.violation("real-RNG sample outside 0..2n", json!({"kind": "support", "extra": true, "missing": false}),
+                          json!({"case": case, "epsilon": eps, "delta": delta, "sensitivity": sens, "n": n, "outside": outside}));
+            continue;
+        }
+        // reference pmf and pooling of cells with expectation < 8 (from both ends towards the centre)
+        let q = (-eps).exp();
+        let norm: f64 = (0..hist.len()).map(|x| q.powf((x as f64 - f64::from(n)).abs())).sum();
+        let exp: Vec<f64> = (0..hist.len()).map(|x| draws as f64 * q.powf((x as f64 - f64::from(n)).abs()) / norm).collect();
+        let mut cells: Vec<(f64, f64)> = Vec::new(); // (observed, expected)
+        let (mut acc_o, mut acc_e) = (0.0, 0.0);
+        for x in 0..hist.len() {
+            acc_o += hist[x] as f64;
+            acc_e += exp[x];
+            if acc_e >= 8.0 {
+                cells.push((acc_o, acc_e));
+                acc_o = 0.0;
+                acc_e = 0.0;
+            }
+        }
+        if let Some(last) = cells.last_mut() {
+            last.0 += acc_o;
+            last.1 += acc_e;
+        }
+        if cells.len() < 3 {
+            rec.count("chi2_too_few_cells");
+            continue;
+        }
+        let chi2: f64 = cells.iter().map(|(o, e)| (o - e) * (o - e) / e).sum();
+        let dof = (cells.len() - 1) as f64;
+        let p = gamma_q(dof / 2.0, chi2 / 2.0);
+        rec.count("chi2_runs");
+        rec.distinct(&("chi2", case));
+        if p < 1e-3 {
+            rec.count("chi2_p_below_1e-3_(evidence_only)");
+        }
+        rec.sample(json!({"case": case, "epsilon": eps, "delta": delta, "sensitivity": sens, "n": n, "samples": draws, "cells": cells.len(),
+                          "chi2": chi2, "p_value": p}));
+        if p < 1e-12 {
+            rec.violation("seeded real-RNG histogram is incompatible with pmf ~ exp(-eps*|x-n|) (p < 1e-12)",
+                          json!({"kind": "chi2"}),
+                          json!({"case": case, "epsilon": eps, "delta": delta, "sensitivity": sens, "n": n, "chi2": chi2, "dof": dof, "p": p}));
+        }
+    }
+    rec.finish();
+}
+
+// ---------------------------------------------------------------------------------------------
+// (3) sample -> share mapping of the private noise sampler
+// ---------------------------------------------------------------------------------------------
+
+fn noise_params(eps: f64, delta: f64, cap: u32) -> NoiseParams {
+    // struct literal: NoiseParams::new is itself under test in (4)
+    NoiseParams { epsilon: eps, delta, per_user_credit_cap: cap, ..Default::default() }
+}
+
+/// Drives sample_shares to support point x (attempts chosen by the script) in both directions and checks the shares.
+fn share_mapping_width<OV>(rec: &mut Recorder, ci: usize, eps: f64, delta: f64, cap: u32)
+where
+    OV: BooleanArray + U128Conversions,
+{
+    let width = OV::BITS;
+    let np = noise_params(eps, delta, cap);
+    let desc = json!({"case": ci, "epsilon": eps, "delta": delta, "per_user_credit_cap": cap, "width": width});
+    let st = match catch(|| ShiftedTruncatedDiscreteLaplace::new(&np, width)) {
+        Ok(Ok(s)) => s,
+        o => {
+            rec.eval();
+            rec.violation("ShiftedTruncatedDiscreteLaplace::new failed inside the documented range",
+                          json!({"kind": "constructor_range", "ctor": "ShiftedTruncatedDiscreteLaplace::new", "param": "grid"}),
+                          json!({"desc": desc, "case": ci, "outcome": format!("{:?}", o.map(|r| r.map(|_| ())))}));
+            return;
+        }
+    };
+    // centre of the sampler's support (whether it is the documented truncation point is monitor (1)'s business)
+    let n = st.truncated_discrete_laplace.get_shift();
+    let ni = i64::from(n);
+    let modulus: i64 = 1i64 << width;
+    let mut reported = 0usize;
+    for x in 0..=2 * ni {
+        let (a1, a2) = ((x - ni).max(0) as u32, (ni - x).max(0) as u32);
+        let want = (x - ni).rem_euclid(modulus) as u128;
+        let mut got: [Option<(u128, u128)>; 2] = [None, None];
+        for (k, dir) in [Direction::Left, Direction::Right].into_iter().enumerate() {
+            let mut s = Script::path(a1, a2);
+            if let Ok(sh) = catch(|| st.sample_shares::<_, OV>(&mut s, dir)) {
+                if s.draws == u64::from(a1 + a2) + 2 && s.other == 0 {
+                    got[k] = Some((sh.left().as_u128(), sh.right().as_u128()));
+                }
+            }
+        }
+        rec.eval();
+        // helper next to the excluded one on its right holds (x_{E+1}, x_{E+2}) = (0, v): excluded helper is to its Left;
+        // the other generating helper holds (x_{E+2}, x_E) = (v, 0): excluded helper is to its Right.
+        let ok = match (got[0], got[1]) {
+            (Some((l_left, l_right)), Some((r_left, r_right))) => {
+                let zero_side = l_left == 0 && r_right == 0;
+                let same = l_right == r_left;
+                let reconstructed = l_left ^ l_right ^ r_right; // x_E = r_right, x_{E+1} = l_left, x_{E+2} = l_right
+                zero_side && same && reconstructed == want
+            }
+            _ => false,
+        };
+        if ok {
+            rec.count("share_mapping_points_exact");
+            rec.distinct(&("map", width, ci, x));
+            if rec.want_sample() && x % 5 == 0 {
+                rec.sample(serde_json::json!({"share_mapping_case": {"width": width, "config": ci, "support_point": x}}));
+            }
+            if x - ni == -1 {
+                rec.count("share_mapping_minus_one_exact");
+            }
+        } else {
+            reported += 1;
+            if reported <= 3 {
+                let value = x - ni;
+                let zero_side = matches!((got[0], got[1]), (Some((0, _)), Some((_, 0))));
+                rec.violation(
+                    "noise shares of a scripted sample do not reconstruct to (x-n) mod 2^w with the zero share on the excluded helper's side",
+                    json!({"kind": "share_mapping", "width": width, "value": value, "zero_on_excluded_side": zero_side}),
+                    json!({"desc": desc, "case": ci, "n": n, "x": x, "attempts1": a1, "attempts2": a2, "expected_share_value": want,
+                           "direction_left_share(left,right)": got[0], "direction_right_share(left,right)": got[1]}),
+                );
+            } else {
+                rec.count("share_mapping_further_mismatches_not_listed");
+            }
+        }
+    }
+    rec.seen("share_mapping_widths", format!("{width}"));
+}
+
+#[test]
+fn verif_c12_share_mapping() {
+    let env = vlib::env();
+    let mut rec = Recorder::new(P, "verif_c12_share_mapping");
+    let only = replay_case();
+    // (epsilon, delta, per_user_credit_cap): production default delta 1e-6 with caps 2^SS_BITS, plus wide supports
+    // (2n+1 > 256 wraps several times at 8 bits)
+    let mut cfgs: Vec<(f64, f64, u32)> = vec![(5.0, 1e-6, 8), (1.0, 1e-6, 8), (10.0, 1e-6, 1), (0.1, 1e-6, 1), (0.05, 1e-9, 10), (2.0, 1e-6, 32),
+                                              (0.01, 1e-6, 8), (20.0, 1e-6, 8)];
+    if env.thorough {
+        cfgs.extend([(0.01, 1e-8, 1000), (0.5, 1e-7, 64), (3.5, 1e-12, 2), (0.02, 1e-6, 128), (0.25, 1e-6, 8), (1.0, 1e-2, 1)]);
+    }
+    for (ci, (e, d, c)) in cfgs.iter().enumerate() {
+        for (wi, w) in [8u32, 16, 32].iter().enumerate() {
+            let case = ci * 3 + wi;
+            if !env.mine(case) || only.is_some_and(|c| c != case) {
+                continue;
+            }
+            match w {
+                8 => share_mapping_width::<BA8>(&mut rec, case, *e, *d, *c),
+                16 => share_mapping_width::<BA16>(&mut rec, case, *e, *d, *c),
+                _ => share_mapping_width::<BA32>(&mut rec, case, *e, *d, *c),
+            }
+        }
+    }
+    rec.finish();
+}
+
+// ---------------------------------------------------------------------------------------------
+// (4) constructors: accept iff every condition stated in the doc comment / error text holds
+// ---------------------------------------------------------------------------------------------
+
+#[derive(Clone, Copy, PartialEq, Debug)]
+enum Doc {
+    Inside,
+    Outside,
+    /// exactly on a bound whose documentation is ambiguous or self-contradictory, or not a real number:
+    /// observed and counted, never an alarm
+    Ambiguous,
+}
+
+fn doc_gt0(x: f64) -> Doc {
+    if !x.is_finite() {
+        Doc::Ambiguous
+    } else if x > 0.0 {
+        Doc::Inside
+    } else {
+        Doc::Outside
+    }
+}
+
+fn all(docs: &[Doc]) -> Doc {
+    if docs.contains(&Doc::Outside) {
+        Doc::Outside
+    } else if docs.contains(&Doc::Ambiguous) {
+        Doc::Ambiguous
+    } else {
+        Doc::Inside
+    }
+}
+
+fn fbits(x: f64) -> String {
+    format!("{x:e}")
+}
+
+#[test]
+fn verif_c12_constructors() {
+    let env = vlib::env();
+    let mut rec = Recorder::new(P, "verif_c12_constructors");
+    let only = replay_case();
+    let mut case = 0usize;
+
+    // ---- NoiseParams::new: "epsilon must be > 0.0", "delta must be > 0.0", "success_prob must be between 0 and 1"
+    //      (doc comment: range [0,1]), "dimensions / quantization_scale / ell_* must be > 0.0"
+    let eps_v = [0.01, 1.0, 5.0, 20.0, 1e-300, 0.0, -0.0, -1.0, f64::NAN, f64::INFINITY];
+    let delta_v = [1e-6, 1e-10, 1e-12, 1e-2, 0.5, 0.0, -1e-6, f64::NAN];
+    let prob_v = [0.5, 0.25, 0.999, 0.0, 1.0, -0.1, 1.000_001, 2.0];
+    let pos_v = [1.0, 256.0, 1e-3, 0.0, -1.0];
+    let doc_prob = |p: f64| {
+        if p == 0.0 || p == 1.0 {
+            Doc::Ambiguous // "[0,1]" in the doc comment, "between 0 and 1" in the error text
+        } else if p > 0.0 && p < 1.0 {
+            Doc::Inside
+        } else {
+            Doc::Outside
+        }
+    };
+    let mut noise_cases: Vec<([f64; 8], &'static str)> = Vec::new();
+    for e in eps_v {
+        for d in delta_v {
+            for p in prob_v {
+                noise_cases.push(([e, d, p, 1.0, 1.0, 1.0, 1.0, 1.0], "epsilon-delta-success_prob"));
+            }
+        }
+    }
+    for (slot, name) in [(3usize, "dimensions"), (4, "quantization_scale"), (5, "ell_1_sensitivity"), (6, "ell_2_sensitivity"), (7, "ell_infty_sensitivity")] {
+        for v in pos_v {
+            let mut a = [5.0, 1e-6, 0.5, 1.0, 1.0, 1.0, 1.0, 1.0];
+            a[slot] = v;
+            noise_cases.push((a, name));
+        }
+    }
+    for (a, group) in noise_cases {
+        case += 1;
+        if !env.mine(case) || only.is_some_and(|c| c != case) {
+            continue;
+        }
+        rec.eval();
+        let per_param = [("epsilon", doc_gt0(a[0])), ("delta", doc_gt0(a[1])), ("success_prob", doc_prob(a[2])), ("dimensions", doc_gt0(a[3])),
+                         ("quantization_scale", doc_gt0(a[4])), ("ell_1_sensitivity", doc_gt0(a[5])), ("ell_2_sensitivity", doc_gt0(a[6])),
+                         ("ell_infty_sensitivity", doc_gt0(a[7]))];
+        let doc = all(&per_param.map(|(_, d)| d));
+        let got = catch(|| NoiseParams::new(a[0], a[1], 8, a[2], a[3], a[4], a[5], a[6], a[7]).map(|_| ()));
+        let witness = json!({"case": case, "ctor": "NoiseParams::new", "epsilon": fbits(a[0]), "delta": fbits(a[1]), "success_prob": fbits(a[2]),
+                             "dimensions": a[3], "quantization_scale": a[4], "ell_1": a[5], "ell_2": a[6], "ell_infty": a[7],
+                             "documented": format!("{doc:?}"), "got": format!("{got:?}")});
+        match (doc, &got) {
+            (_, Err(p)) => rec.violation("NoiseParams::new panicked", json!({"kind": "panic", "ctor": "NoiseParams::new"}),
+                                         json!({"witness": witness, "case": case, "panic": p})),
+            (Doc::Ambiguous, Ok(r)) => {
+                rec.count("ctor_ambiguous_or_nonfinite_observed_only");
+                // one entry per (ambiguous parameter value, outcome) while every other parameter is inside its range
+                if per_param.iter().filter(|(_, d)| *d != Doc::Inside).count() == 1 {
+                    let (name, _) = per_param.iter().find(|(_, d)| *d == Doc::Ambiguous).unwrap();
+                    let val = match *name { "epsilon" => a[0], "delta" => a[1], _ => a[2] };
+                    rec.seen("ctor_ambiguous_observations", format!("NoiseParams::new: {name}={} -> {}", fbits(val), if r.is_ok() { "accepted" } else { "rejected" }));
+                }
+            }
+            (Doc::Inside, Ok(Ok(()))) | (Doc::Outside, Ok(Err(_))) => {
+                rec.count(if doc == Doc::Inside { "ctor_accept_as_documented" } else { "ctor_reject_as_documented" });
+                rec.distinct(&("NoiseParams::new", a.map(f64::to_bits)));
+                rec.seen("ctor_groups", format!("NoiseParams::new/{group}"));
+            }
+            (Doc::Inside, Ok(Err(msg))) => {
+                // which parameter does the error text blame?
+                let blamed = per_param.iter().map(|(n, _)| *n).find(|n| msg.starts_with(n)).unwrap_or("?");
+                rec.violation("NoiseParams::new rejects parameters that satisfy every documented condition",
+                              json!({"kind": "constructor_range", "ctor": "NoiseParams::new", "param": blamed, "decision": "rejected_inside"}), witness);
+            }
+            (Doc::Outside, Ok(Ok(()))) => {
+                let offending: Vec<&str> = per_param.iter().filter(|(_, d)| *d == Doc::Outside).map(|(n, _)| *n).collect();
+                rec.violation("NoiseParams::new accepts parameters that violate a documented condition",
+                              json!({"kind": "constructor_range", "ctor": "NoiseParams::new", "param": offending.first().copied().unwrap_or("?"), "decision": "accepted_outside"}),
+                              witness);
+            }
+        }
+    }
+
+    // ---- OPRFPaddingDp::new: epsilon > 0 (BadEpsilon), delta in (0,1) (BadDelta), sensitivity <= 1e6 (BadSensitivity),
+    //      resulting shift <= 1e6 (BadShiftValue)
+    let eps_o = [0.01, 0.5, 5.0, 20.0, 0.0, -0.0, -1.0, -1e-300, f64::NEG_INFINITY, f64::MIN_POSITIVE];
+    let delta_o = [1e-6, 1e-12, 1e-2, 0.5, 0.999, 0.0, -0.0, -1e-6, 1.5, 2.0, f64::INFINITY, f64::NAN, 1.0, f64::MIN_POSITIVE];
+    let sens_o: &[u32] = &[1, 2, 10, 1000, 1_000_001, 2_000_000, u32::MAX, 0];
+    for e in eps_o {
+        for d in delta_o {
+            for s in sens_o {
+                case += 1;
+                if !env.mine(case) || only.is_some_and(|c| c != case) {
+                    continue;
+                }
+                let de = if e == f64::MIN_POSITIVE { Doc::Ambiguous } else { doc_gt0(e) };
+                let dd = if d.is_nan() {
+                    Doc::Ambiguous
+                } else if d == 1.0 || d == f64::MIN_POSITIVE {
+                    Doc::Ambiguous // the documented bound 1.0 - f64::MIN_POSITIVE is 1.0 in f64
+                } else if d > 0.0 && d < 1.0 {
+                    Doc::Inside
+                } else {
+                    Doc::Outside
+                };
+                let ds = if *s == 0 {
+                    Doc::Ambiguous // README: sensitivity is a positive integer; the constructor is silent
+                } else if *s <= 1_000_000 {
+                    Doc::Inside
+                } else {
+                    Doc::Outside
+                };
+                let doc = all(&[de, dd, ds]);
+                // never call the constructor where an accepted-but-degenerate input (tiny positive epsilon: r = 1, A = NaN) makes
+                // find_smallest_n scan 2^32 values, nor where a faulty validator would let such an input through
+                // (delta = f64::MIN_POSITIVE needs n ~ 708/eps steps of `sensitivity` terms each: only with small sensitivities)
+                let callable = (doc == Doc::Outside && (e >= 0.01 || e <= 0.0)) || (e >= 0.01 && e.is_finite() && d > 0.0 && d <= 1.0 && *s <= 1000 && (d >= 1e-12 || *s <= 2));
+                if !callable {
+                    rec.count("ctor_not_called_degenerate_accepting_path");
+                    continue;
+                }
+                rec.eval();
+                let got = catch(|| OPRFPaddingDp::new(e, d, *s).map(|_| ()));
+                let witness = json!({"case": case, "ctor": "OPRFPaddingDp::new", "epsilon": fbits(e), "delta": fbits(d), "sensitivity": s,
+                                     "documented": format!("{doc:?}"), "got": format!("{got:?}")});
+                match (doc, &got) {
+                    (_, Err(p)) => rec.violation("OPRFPaddingDp::new panicked", json!({"kind": "panic", "ctor": "OPRFPaddingDp::new"}),
+                                                 json!({"witness": witness, "case": case, "panic": p})),
+                    (Doc::Ambiguous, Ok(r)) => {
+                        rec.count("ctor_ambiguous_or_nonfinite_observed_only");
+                        if [de, dd, ds].iter().filter(|x| **x != Doc::Inside).count() == 1 {
+                            let which = if de == Doc::Ambiguous { format!("epsilon={}", fbits(e)) } else if dd == Doc::Ambiguous { format!("delta={}", fbits(d)) } else { format!("sensitivity={s}") };
+                            rec.seen("ctor_ambiguous_observations", format!("OPRFPaddingDp::new: {which} -> {}", if r.is_ok() { "accepted" } else { "rejected" }));
+                        }
+                    }
+                    (Doc::Inside, Ok(Ok(()))) | (Doc::Outside, Ok(Err(_))) => {
+                        rec.count(if doc == Doc::Inside { "ctor_accept_as_documented" } else { "ctor_reject_as_documented" });
+                        rec.distinct(&("OPRFPaddingDp::new", e.to_bits(), d.to_bits(), s));
+                        rec.seen("ctor_groups", "OPRFPaddingDp::new");
+                    }
+                    (Doc::Inside, Ok(Err(err))) => rec.violation(
+                        "OPRFPaddingDp::new rejects parameters that satisfy every documented condition",
+                        json!({"kind": "constructor_range", "ctor": "OPRFPaddingDp::new", "param": format!("{err:?}").split('(').next().unwrap_or("?"),
+                               "decision": "rejected_inside"}),
+                        witness,
+                    ),
+                    (Doc::Outside, Ok(Ok(()))) => rec.violation(
+                        "OPRFPaddingDp::new accepts parameters that violate a documented condition",
+                        json!({"kind": "constructor_range", "ctor": "OPRFPaddingDp::new",
+                               "param": if de == Doc::Outside { "epsilon" } else if dd == Doc::Outside { "delta" } else { "sensitivity" },
+                               "decision": "accepted_outside"}),
+                        witness,
+                    ),
+                }
+            }
+        }
+    }
+    // the sensitivity / shift bound of 1e6 (one expensive call each: find_smallest_n sums `sensitivity` terms per step)
+    for (s, expect_ok) in [(999_000u32, true), (1_000_000, false)] {
+        case += 1;
+        if !env.thorough || !env.mine(case) || only.is_some_and(|c| c != case) {
+            continue;
+        }
+        rec.eval();
+        let got = catch(|| OPRFPaddingDp::new(5.0, 1e-6, s).map(|d| d.get_shift()));
+        // sensitivity 1e6 is inside "sensitivity <= 1e6" but its truncation point n >= sensitivity + 1 exceeds the documented
+        // shift bound (BadShiftValue), so a rejection is the documented outcome there
+        match (&got, expect_ok) {
+            (Ok(Ok(n)), true) if *n >= s => rec.count("ctor_accept_as_documented"),
+            (Ok(Err(_)), false) => rec.count("ctor_reject_as_documented"),
+            _ => rec.violation("OPRFPaddingDp::new at the 1e6 sensitivity/shift bound does not behave as documented",
+                               json!({"kind": "constructor_range", "ctor": "OPRFPaddingDp::new", "param": "sensitivity_bound"}),
+                               json!({"case": case, "sensitivity": s, "got": format!("{got:?}")})),
+        }
+    }
+    rec.finish();
+}
+
+// ---------------------------------------------------------------------------------------------
+// (5) three in-memory helpers
+// ---------------------------------------------------------------------------------------------
+
+#[cfg(not(feature = "shuttle"))]
+mod worlds {
+    use std::{convert::Infallible, time::Duration};
+
+    use serde_json::{Value, json};
+
+    use super::{
+        super::super::{NoiseParams, apply_laplace_noise_pass, dp_for_histogram, step::DPStep},
+        AMBIGUITY, P, Replicated, noise_params, replay_case, smallest_n_f64,
+    };
+    use crate::{
+        error::{Error, LengthError},
+        ff::{
+            U128Conversions,
+            boolean::Boolean,
+            boolean_array::{BA3, BA8, BA16, BA32, BA64, BooleanArray},
+        },
+        helpers::{Role, query::DpMechanism},
+        protocol::{
+            BooleanProtocols,
+            context::{Context, DZKPUpgraded, MaliciousProtocolSteps, UpgradableContext, dzkp_validator::DZKPValidator},
+            hybrid::step::HybridStep,
+            ipa_prf::oprf_padding::{AggregationPadding, OPRFPadding, PaddingParameters, apply_dp_padding, apply_dp_padding_pass},
+        },
+        report::hybrid::IndistinguishableHybridReport,
+        secret_sharing::{BitDecomposed, FieldSimd, TransposeFrom, Vectorizable, replicated::ReplicatedSecretSharing},
+        sharding::NotSharded,
+        test_fixture::{TestWorld, TestWorldConfig},
+        verif::vlib::{self, Paused, Recorder, VRng, catch_fut},
+    };
+
+    /// What one helper returned.
+    #[derive(Debug, Clone)]
+    pub enum Out<T> {
+        Ok(T),
+        Err(String),
+        Panic(String),
+    }
+    impl<T> Out<T> {
+        fn class(&self) -> String {
+            match self {
+                Out::Ok(_) => "ok".into(),
+                Out::Err(e) => format!("err:{}", e.chars().take(40).collect::<String>()),
+                Out::Panic(_) => "panic".into(),
+            }
+        }
+        fn from<E: std::fmt::Debug>(r: Result<Result<T, E>, String>) -> Self {
+            match r {
+                Ok(Ok(v)) => Out::Ok(v),
+                Ok(Err(e)) => Out::Err(format!("{e:?}")),
+                Err(p) => Out::Panic(p),
+            }
+        }
+    }
+
+    /// Runs `$f(ctx, input_i)` on the three helpers of a fresh seeded TestWorld under the paused clock.
+    /// Evaluates to Option<[Out<_>; 3]> (None = quiescent without completion).
+    macro_rules! world3 {
+        ($seed:expr, $malicious:expr, $inputs:expr, |$ctx:ident, $inp:ident| $body:expr) => {{
+            let seed: u64 = $seed;
+            let malicious: bool = $malicious;
+            let [i0, i1, i2] = $inputs;
+            let fut = async move {
+                let mut cfg = TestWorldConfig::default();
+                cfg.seed = seed;
+                cfg.timeout = None;
+                let world = TestWorld::<NotSharded>::with_config(&cfg);
+                macro_rules! helper {
+                    ($c:expr, $i:expr) => {{
+                        let $ctx = $c;
+                        let $inp = $i;
+                        catch_fut(async move { $body.await })
+                    }};
+                }
+                if malicious {
+                    let [c0, c1, c2] = world.malicious_contexts();
+                    let (a, b, c) = futures::join!(helper!(c0, i0), helper!(c1, i1), helper!(c2, i2));
+                    [Out::from(a), Out::from(b), Out::from(c)]
+                } else {
+                    let [c0, c1, c2] = world.contexts();
+                    let (a, b, c) = futures::join!(helper!(c0, i0), helper!(c1, i1), helper!(c2, i2));
+                    [Out::from(a), Out::from(b), Out::from(c)]
+                }
+            };
+            match vlib::run_paused(Duration::from_secs(60), fut) {
+                Paused::Done(r) => Some(r),
+                Paused::Quiescent => None,
+            }
+        }};
+    }
+
+    /// Own replicated (XOR) sharing of `v`: helper i holds (x_i, x_{i+1}).
+    fn share3(v: u128, mask: u128, r: &mut VRng) -> [(u128, u128); 3] {
+        let x1 = r.u128() & mask;
+        let x2 = r.u128() & mask;
+        let x3 = (v ^ x1 ^ x2) & mask;
+        [(x1, x2), (x2, x3), (x3, x1)]
+    }
+
+    /// Consistency and value of one replicated sharing given as the three helpers' (left, right).
+    fn reconstruct3(s: [(u128, u128); 3]) -> Result<u128, &'static str> {
+        if s[0].1 != s[1].0 || s[1].1 != s[2].0 || s[2].1 != s[0].0 {
+            return Err("inconsistent");
+        }
+        Ok(s[0].0 ^ s[1].0 ^ s[2].0)
+    }
+
+    fn pair<V: BooleanArray + U128Conversions>(s: &Replicated<V>) -> (u128, u128) {
+        (s.left().as_u128(), s.right().as_u128())
+    }
+
+    // ---- noise passes ---------------------------------------------------------------------------
+
+    const DP_STEPS: MaliciousProtocolSteps<'static, HybridStep> =
+        MaliciousProtocolSteps { protocol: &HybridStep::DifferentialPrivacy, validate: &HybridStep::DifferentialPrivacyValidate };
+
+    /// The three passes of dp_for_histogram's DiscreteLaplace branch, one by one, under the same steps, returning the
+    /// sharing after every pass.
+    async fn three_passes<C, OV, const B: usize>(ctx: C, input: Vec<Replicated<OV>>, np: (f64, f64, u32)) -> Result<[Vec<Replicated<OV>>; 3], Error>
+    where
+        C: UpgradableContext,
+        Boolean: Vectorizable<B> + FieldSimd<B>,
+        OV: BooleanArray + U128Conversions,
+        Replicated<Boolean, B>: BooleanProtocols<DZKPUpgraded<C>, B>,
+        Vec<Replicated<OV>>: for<'a> TransposeFrom<&'a BitDecomposed<Replicated<Boolean, B>>, Error = LengthError>,
+        BitDecomposed<Replicated<Boolean, B>>: for<'a> TransposeFrom<&'a [Replicated<OV>; B], Error = Infallible>,
+    {
+        let np: NoiseParams = noise_params(np.0, np.1, np.2);
+        let arr: [Replicated<OV>; B] = input.try_into().map_err(|_| Error::Internal).unwrap();
+        let v = ctx.dzkp_validator(DP_STEPS, 1);
+        let c = v.context();
+        let h0: BitDecomposed<Replicated<Boolean, B>> = BitDecomposed::transposed_from(&arr).unwrap();
+        let h1 = apply_laplace_noise_pass::<_, OV, B>(&c.narrow(&DPStep::LaplacePass1), h0, Role::H1, &np).await?;
+        let s1 = Vec::transposed_from(&h1)?;
+        let h2 = apply_laplace_noise_pass::<_, OV, B>(&c.narrow(&DPStep::LaplacePass2), h1, Role::H2, &np).await?;
+        let s2 = Vec::transposed_from(&h2)?;
+        let h3 = apply_laplace_noise_pass::<_, OV, B>(&c.narrow(&DPStep::LaplacePass3), h2, Role::H3, &np).await?;
+        let s3 = Vec::transposed_from(&h3)?;
+        v.validate().await?;
+        Ok([s1, s2, s3])
+    }
+
+    async fn real_histogram<C, OV, const B: usize, const SS_BITS: usize>(ctx: C, input: Vec<Replicated<OV>>, mech: DpMechanism) -> Result<Vec<Replicated<OV>>, Error>
+    where
+        C: UpgradableContext,
+        Boolean: Vectorizable<B> + FieldSimd<B>,
+        BitDecomposed<Replicated<Boolean, B>>: crate::protocol::prss::FromPrss<usize>,
+        OV: BooleanArray + U128Conversions,
+        Replicated<Boolean, B>: BooleanProtocols<DZKPUpgraded<C>, B>,
+        Vec<Replicated<OV>>: for<'a> TransposeFrom<&'a BitDecomposed<Replicated<Boolean, B>>, Error = LengthError>,
+        BitDecomposed<Replicated<Boolean, B>>: for<'a> TransposeFrom<&'a [Replicated<OV>; B], Error = Infallible>,
+    {
+        let arr: [Replicated<OV>; B] = input.try_into().map_err(|_| Error::Internal).unwrap();
+        let h0: BitDecomposed<Replicated<Boolean, B>> = BitDecomposed::transposed_from(&arr).unwrap();
+        dp_for_histogram::<C, B, OV, SS_BITS>(ctx, h0, mech).await
+    }
+
+    #[derive(Clone, Copy, Debug)]
+    struct NoiseCase {
+        width: u32,
+        buckets: usize,
+        ss_bits: usize,
+        eps: f64,
+        malicious: bool,
+    }
+
+    fn shares_of<OV: BooleanArray + U128Conversions>(vals: &[u128], r: &mut VRng) -> [Vec<Replicated<OV>>; 3] {
+        let mask = if OV::BITS >= 128 { u128::MAX } else { (1u128 << OV::BITS) - 1 };
+        let mut out: [Vec<Replicated<OV>>; 3] = [Vec::new(), Vec::new(), Vec::new()];
+        for v in vals {
+            let s = share3(*v, mask, r);
+            for h in 0..3 {
+                out[h].push(Replicated::new(OV::truncate_from(s[h].0), OV::truncate_from(s[h].1)));
+            }
+        }
+        out
+    }
+
+    /// Reconstructs bucket-wise; Err((bucket, "inconsistent")) when the three helpers do not hold one consistent sharing.
+    fn reconstruct_vec<OV: BooleanArray + U128Conversions>(hs: [&Vec<Replicated<OV>>; 3], buckets: usize) -> Result<Vec<u128>, (usize, &'static str)> {
+        if hs.iter().any(|h| h.len() != buckets) {
+            return Err((0, "length"));
+        }
+        (0..buckets).map(|b| reconstruct3([pair(&hs[0][b]), pair(&hs[1][b]), pair(&hs[2][b])]).map_err(|e| (b, e))).collect()
+    }
+
+    fn noise_case_run<OV, const B: usize, const SS_BITS: usize>(rec: &mut Recorder, idx: usize, case: NoiseCase, seed: u64)
+    where
+        OV: BooleanArray + U128Conversions,
+        Boolean: Vectorizable<B> + FieldSimd<B>,
+        BitDecomposed<Replicated<Boolean, B>>: crate::protocol::prss::FromPrss<usize>,
+        Vec<Replicated<OV>>: for<'a> TransposeFrom<&'a BitDecomposed<Replicated<Boolean, B>>, Error = LengthError>,
+        BitDecomposed<Replicated<Boolean, B>>: for<'a> TransposeFrom<&'a [Replicated<OV>; B], Error = Infallible>,
+        for<'x> Replicated<Boolean, B>: BooleanProtocols<DZKPUpgraded<crate::protocol::context::SemiHonestContext<'x>>, B>
+            + BooleanProtocols<DZKPUpgraded<crate::protocol::context::MaliciousContext<'x>>, B>,
+    {
+        let w = OV::BITS;
+        let modulus: u128 = 1u128 << w;
+        let cap = 1u32 << SS_BITS;
+        let delta = 1e-6; // NoiseParams::default().delta, the value dp_for_histogram uses
+        let (n, m_hi, m_lo) = smallest_n_f64(case.eps, delta, cap);
+        if m_hi.min(m_lo) < AMBIGUITY {
+            rec.count("noise_case_boundary_ambiguous_skipped");
+            return;
+        }
+        let n = u128::from(n);
+        let mut r = VRng::new(seed ^ 0xC12_0005, idx as u64);
+        // exact histogram: zeros, small values, values next to the wrap-around, random
+        let exact: Vec<u128> = (0..B)
+            .map(|b| match b % 5 {
+                0 => 0,
+                1 => (b as u128) % modulus,
+                2 => modulus - 1 - (r.below(3) as u128),
+                3 => modulus / 2 - 1 + (r.below(3) as u128),
+                _ => r.u128() % modulus,
+            })
+            .collect();
+        let world_seed = seed.wrapping_mul(0x9E37_79B9).wrapping_add(idx as u64);
+        let desc = json!({"case": idx, "width": w, "buckets": B, "ss_bits": SS_BITS, "epsilon": case.eps, "delta": delta, "malicious": case.malicious,
+                          "world_seed": world_seed, "n": n as u64});
+        let np = (case.eps, delta, cap);
+
+        // ---- replica: pass by pass ----
+        let inputs = shares_of::<OV>(&exact, &mut r.clone());
+        rec.eval();
+        let Some(outs) = world3!(world_seed, case.malicious, inputs, |ctx, inp| three_passes::<_, OV, B>(ctx, inp, np)) else {
+            rec.violation("noise passes did not complete", json!({"kind": "did_not_complete", "what": "laplace_passes", "malicious": case.malicious}), json!({"desc": desc, "case": idx}));
+            return;
+        };
+        let stages = match &outs {
+            [Out::Ok(a), Out::Ok(b), Out::Ok(c)] => [a, b, c],
+            _ => {
+                rec.violation("apply_laplace_noise_pass failed inside the documented parameter range",
+                              json!({"kind": "noise_pass_failed", "malicious": case.malicious, "outcomes": outs.iter().map(Out::class).collect::<Vec<_>>()}),
+                              json!({"desc": desc, "case": idx, "outcomes": format!("{:?}", outs.iter().map(Out::class).collect::<Vec<_>>())}));
+                return;
+            }
+        };
+        let mut prev = exact.clone();
+        let mut per_pass: Vec<Vec<u128>> = Vec::new();
+        let mut ok = true;
+        for pass in 0..3 {
+            rec.eval();
+            let cur = match reconstruct_vec::<OV>([&stages[0][pass], &stages[1][pass], &stages[2][pass]], B) {
+                Ok(v) => v,
+                Err((b, why)) => {
+                    rec.violation("histogram after a noise pass is not one consistent replicated sharing (the generating helpers did not add the same noise share)",
+                                  json!({"kind": "noise_pass_sharing", "pass": pass + 1, "why": why, "width": w}),
+                                  json!({"desc": desc, "case": idx, "bucket": b,
+                                         "shares": (0..3).map(|h| stages[h][pass].get(b).map(pair)).collect::<Vec<_>>()}));
+                    ok = false;
+                    break;
+                }
+            };
+            let diffs: Vec<u128> = (0..B).map(|b| (cur[b] + modulus - prev[b]) % modulus).collect();
+            if 2 * n + 1 < modulus {
+                if let Some(b) = (0..B).find(|b| (diffs[*b] + n) % modulus > 2 * n) {
+                    rec.violation("noisy - exact of one pass is outside [-n, n] mod 2^w",
+                                  json!({"kind": "noise_pass_range", "pass": pass + 1, "width": w}),
+                                  json!({"desc": desc, "case": idx, "bucket": b, "before": prev[b] as u64, "after": cur[b] as u64, "difference_mod_2w": diffs[b] as u64}));
+                    ok = false;
+                    break;
+                }
+                rec.add("per_pass_differences_in_range", B as u64);
+            } else {
+                rec.count("per_pass_range_vacuous_support_wider_than_modulus");
+            }
+            for d in &diffs {
+                let signed = if (*d + n) % modulus <= 2 * n { ((*d + n) % modulus) as i64 - n as i64 } else { i64::MIN };
+                if signed == -1 {
+                    rec.count("per_pass_noise_minus_one_seen");
+                }
+                if signed != i64::MIN && signed < 0 {
+                    rec.count("per_pass_noise_negative_seen");
+                }
+            }
+            per_pass.push(diffs);
+            prev = cur;
+        }
+        if !ok {
+            return;
+        }
+        let replica_final = prev;
+
+        // ---- the real dp_for_histogram on the same world seed ----
+        let mech = DpMechanism::DiscreteLaplace { epsilon: case.eps };
+        let run_real = |r: &mut VRng| {
+            let inputs = shares_of::<OV>(&exact, r);
+            world3!(world_seed, case.malicious, inputs, |ctx, inp| real_histogram::<_, OV, B, SS_BITS>(ctx, inp, mech))
+        };
+        rec.eval();
+        let Some(real) = run_real(&mut r.clone()) else {
+            rec.violation("dp_for_histogram did not complete", json!({"kind": "did_not_complete", "what": "dp_for_histogram", "malicious": case.malicious}), json!({"desc": desc, "case": idx}));
+            return;
+        };
+        let real_vals = match &real {
+            [Out::Ok(a), Out::Ok(b), Out::Ok(c)] => match reconstruct_vec::<OV>([a, b, c], B) {
+                Ok(v) => v,
+                Err((b, why)) => {
+                    rec.violation("output of dp_for_histogram is not one consistent replicated sharing",
+                                  json!({"kind": "noise_pass_sharing", "pass": "total", "why": why, "width": w}), json!({"desc": desc, "case": idx, "bucket": b}));
+                    return;
+                }
+            },
+            _ => {
+                rec.violation("dp_for_histogram failed inside the documented parameter range",
+                              json!({"kind": "dp_for_histogram_failed", "malicious": case.malicious, "outcomes": real.iter().map(Out::class).collect::<Vec<_>>()}),
+                              json!({"desc": desc, "case": idx}));
+                return;
+            }
+        };
+        // total = exact + sum of the three per-pass draws (mod 2^w); |total - exact| <= 3n
+        let mut bad_bucket = None;
+        for b in 0..B {
+            let sum = (per_pass[0][b] + per_pass[1][b] + per_pass[2][b]) % modulus;
+            let total = (real_vals[b] + modulus - exact[b]) % modulus;
+            if total != sum || real_vals[b] != replica_final[b] {
+                bad_bucket = Some((b, "total_differs_from_sum_of_passes"));
+                break;
+            }
+            if 6 * n + 1 < modulus && (total + 3 * n) % modulus > 6 * n {
+                bad_bucket = Some((b, "total_outside_3n"));
+                break;
+            }
+        }
+        match bad_bucket {
+            None => {
+                rec.add("buckets_total_equals_exact_plus_three_draws", B as u64);
+                rec.distinct(&("noise", w, B, SS_BITS, case.eps.to_bits(), case.malicious, world_seed));
+                rec.seen("noise_shapes", format!("w{w}/B{B}/ss{SS_BITS}/{}", if case.malicious { "malicious" } else { "semi-honest" }));
+                if rec.want_sample() {
+                    rec.sample(json!({"desc": desc, "first_buckets_exact": exact.iter().take(4).map(|v| *v as u64).collect::<Vec<_>>(),
+                                      "first_buckets_noisy": real_vals.iter().take(4).map(|v| *v as u64).collect::<Vec<_>>(),
+                                      "first_buckets_pass_differences_mod_2w": per_pass.iter().map(|p| p.iter().take(4).map(|v| *v as u64).collect::<Vec<_>>()).collect::<Vec<_>>()}));
+                }
+            }
+            Some((b, why)) => {
+                // is the world reproducible from its seed at all?  (otherwise the comparison says nothing)
+                let again = run_real(&mut r.clone());
+                let same = match (&again, &real) {
+                    (Some([Out::Ok(a), Out::Ok(b2), Out::Ok(c)]), [Out::Ok(_), Out::Ok(_), Out::Ok(_)]) => reconstruct_vec::<OV>([a, b2, c], B).ok() == Some(real_vals.clone()),
+                    _ => false,
+                };
+                if !same && why == "total_differs_from_sum_of_passes" {
+                    rec.inconclusive("dp_for_histogram is not reproducible from the world seed: per-pass comparison not applicable");
+                } else {
+                    rec.violation("released histogram is not exact + the three per-pass noise draws (mod 2^w)",
+                                  json!({"kind": "noise_total", "why": why, "width": w}),
+                                  json!({"desc": desc, "case": idx, "bucket": b, "exact": exact[b] as u64, "released": real_vals[b] as u64,
+                                         "pass_differences_mod_2w": [per_pass[0][b] as u64, per_pass[1][b] as u64, per_pass[2][b] as u64]}));
+                }
+            }
+        }
+    }
+
+    #[test]
+    fn verif_c12_noise_passes() {
+        let env = vlib::env();
+        let mut rec = Recorder::new(P, "verif_c12_noise_passes");
+        let only = replay_case();
+        let mut cases: Vec<NoiseCase> = Vec::new();
+        let reps = env.pick(3, 24);
+        for _rep in 0..reps {
+            for malicious in [false, true] {
+                for width in [8u32, 16, 32] {
+                    for (ss_bits, eps) in [(3usize, 5.0f64), (3, 1.0), (0, 0.5), (0, 20.0)] {
+                        cases.push(NoiseCase { width, buckets: 32, ss_bits, eps, malicious });
+                    }
+                }
+            }
+            for malicious in [false, true] {
+                for width in [8u32, 32] {
+                    cases.push(NoiseCase { width, buckets: 256, ss_bits: 3, eps: 5.0, malicious });
+                }
+            }
+        }
+        for (idx, c) in cases.iter().enumerate() {
+            if !env.mine(idx) || only.is_some_and(|x| x != idx) {
+                continue;
+            }
+            macro_rules! go {
+                ($ov:ty, $b:literal, $ss:literal) => {
+                    noise_case_run::<$ov, $b, $ss>(&mut rec, idx, *c, env.seed)
+                };
+            }
+            match (c.width, c.buckets, c.ss_bits) {
+                (8, 32, 3) => go!(BA8, 32, 3),
+                (16, 32, 3) => go!(BA16, 32, 3),
+                (32, 32, 3) => go!(BA32, 32, 3),
+                (8, 32, 0) => go!(BA8, 32, 0),
+                (16, 32, 0) => go!(BA16, 32, 0),
+                (32, 32, 0) => go!(BA32, 32, 0),
+                (8, 256, 3) => go!(BA8, 256, 3),
+                (32, 256, 3) => go!(BA32, 256, 3),
+                _ => unreachable!(),
+            }
+        }
+        rec.finish();
+    }
+
+    // ---- epsilon range of dp_for_histogram ------------------------------------------------------------
+
+    #[test]
+    fn verif_c12_hist_eps_range() {
+        let env = vlib::env();
+        let mut rec = Recorder::new(P, "verif_c12_hist_eps_range");
+        let only = replay_case();
+        type OV = BA16;
+        const B: usize = 32;
+        // (mechanism, epsilon, documented): Binomial: "error if epsilon is not in the range (0, MAX_EPSILON)" with MAX_EPSILON = 20
+        // (the bound itself is ambiguous: the code comment says open, the check is closed); DiscreteLaplace inherits epsilon > 0 from
+        // OPRFPaddingDp::new; its upper bound is only implied by the function's doc comment => observed, not alarmed.
+        let mut cases: Vec<(&str, f64, Option<bool>)> = vec![
+            ("binomial", 0.0, Some(false)), ("binomial", -0.0, Some(false)), ("binomial", -1.0, Some(false)), ("binomial", -1e-300, Some(false)),
+            ("binomial", f64::NEG_INFINITY, Some(false)), ("binomial", 20.000_001, Some(false)), ("binomial", 25.0, Some(false)),
+            ("binomial", 1e9, Some(false)), ("binomial", f64::INFINITY, Some(false)),
+            ("binomial", 19.5, Some(true)), ("binomial", 20.0, None),
+            ("laplace", 0.0, Some(false)), ("laplace", -0.0, Some(false)), ("laplace", -2.0, Some(false)), ("laplace", f64::NEG_INFINITY, Some(false)),
+            ("laplace", 0.5, Some(true)), ("laplace", 5.0, Some(true)), ("laplace", 19.5, Some(true)), ("laplace", 20.0, None), ("laplace", 25.0, None),
+        ];
+        if env.thorough {
+            cases.extend([("binomial", 10.0, Some(true)), ("binomial", 15.0, Some(true)), ("laplace", 0.01, Some(true)), ("laplace", 1.0, Some(true))]);
+        }
+        for (idx, (mech_name, eps, documented)) in cases.iter().enumerate() {
+            if !env.mine(idx) || only.is_some_and(|x| x != idx) {
+                continue;
+            }
+            let mech = if *mech_name == "binomial" { DpMechanism::Binomial { epsilon: *eps } } else { DpMechanism::DiscreteLaplace { epsilon: *eps } };
+            let mut r = VRng::new(env.seed ^ 0xC12_0004, idx as u64);
+            let exact: Vec<u128> = (0..B).map(|b| (b as u128 * 37) % 1000).collect();
+            let inputs = shares_of::<OV>(&exact, &mut r);
+            let world_seed = env.seed.wrapping_mul(31).wrapping_add(idx as u64);
+            let desc = json!({"case": idx, "mechanism": mech_name, "epsilon": format!("{eps:e}"), "world_seed": world_seed, "documented_accept": documented});
+            rec.eval();
+            let Some(outs) = world3!(world_seed, false, inputs, |ctx, inp| real_histogram::<_, OV, B, 0>(ctx, inp, mech)) else {
+                rec.violation("dp_for_histogram did not complete", json!({"kind": "did_not_complete", "what": "dp_for_histogram", "mechanism": mech_name}), json!({"desc": desc, "case": idx}));
+                continue;
+            };
+            let classes: Vec<String> = outs.iter().map(Out::class).collect();
+            let all_ok = outs.iter().all(|o| matches!(o, Out::Ok(_)));
+            let all_err = outs.iter().all(|o| matches!(o, Out::Err(_)));
+            match documented {
+                None => {
+                    rec.count("ctor_ambiguous_or_nonfinite_observed_only");
+                    rec.seen("ctor_ambiguous_observations", format!("dp_for_histogram({mech_name}, eps={eps:e}) -> {}", classes.join(",")));
+                }
+                Some(true) if all_ok => {
+                    rec.count("hist_eps_accept_as_documented");
+                    rec.distinct(&("hist", *mech_name, eps.to_bits()));
+                }
+                Some(false) if all_err => {
+                    rec.count("hist_eps_reject_as_documented");
+                    rec.distinct(&("hist", *mech_name, eps.to_bits()));
+                    rec.seen("hist_rejection_errors", classes[0].clone());
+                }
+                Some(want) => rec.violation(
+                    "dp_for_histogram accept/reject decision differs from the documented epsilon range",
+                    json!({"kind": "constructor_range", "ctor": "dp_for_histogram", "param": "epsilon", "mechanism": mech_name,
+                           "decision": if *want { "rejected_inside" } else { "accepted_outside" }, "panic": classes.iter().any(|c| c == "panic")}),
+                    json!({"desc": desc, "case": idx, "outcomes": classes,
+                           "detail": outs.iter().map(|o| match o { Out::Ok(_) => "ok".to_string(), Out::Err(e) => e.clone(), Out::Panic(p) => p.clone() }).collect::<Vec<_>>()}),
+                ),
+            }
+        }
+        rec.finish();
+    }
+
+    // ---- dummy rows ---------------------------------------------------------------------------------
+
+    type Row = IndistinguishableHybridReport<BA8, BA3>;
+    type AggRow = IndistinguishableHybridReport<BA8, BA3, ()>;
+
+    /// (match_key?, breakdown_key, value) shares of one row as (left, right) pairs
+    type RowShares = (Option<(u128, u128)>, (u128, u128), (u128, u128));
+
+    fn row_shares(r: &Row) -> RowShares {
+        (Some(pair(&r.match_key)), pair(&r.breakdown_key), pair(&r.value))
+    }
+    fn agg_row_shares(r: &AggRow) -> RowShares {
+        (None, pair(&r.breakdown_key), pair(&r.value))
+    }
+
+    fn make_rows(count: usize, r: &mut VRng) -> ([Vec<Row>; 3], [Vec<AggRow>; 3], Vec<(u128, u128, u128)>) {
+        let mut rows: [Vec<Row>; 3] = [Vec::new(), Vec::new(), Vec::new()];
+        let mut agg: [Vec<AggRow>; 3] = [Vec::new(), Vec::new(), Vec::new()];
+        let mut plain = Vec::new();
+        for _ in 0..count {
+            let mk = r.u128() & u128::from(u64::MAX);
+            let bk = r.u128() & 0xff;
+            let v = r.u128() & 0x7;
+            plain.push((mk, bk, v));
+            let smk = share3(mk, u128::from(u64::MAX), r);
+            let sbk = share3(bk, 0xff, r);
+            let sv = share3(v, 0x7, r);
+            for h in 0..3 {
+                let match_key = Replicated::new(BA64::truncate_from(smk[h].0), BA64::truncate_from(smk[h].1));
+                let breakdown_key = Replicated::new(BA8::truncate_from(sbk[h].0), BA8::truncate_from(sbk[h].1));
+                let value = Replicated::new(BA3::truncate_from(sv[h].0), BA3::truncate_from(sv[h].1));
+                rows[h].push(Row { match_key: match_key.clone(), value: value.clone(), breakdown_key: breakdown_key.clone() });
+                agg[h].push(AggRow { match_key: (), value, breakdown_key });
+            }
+        }
+        (rows, agg, plain)
+    }
+
+    #[derive(Clone, Copy, Debug)]
+    struct PadCase {
+        kind: &'static str, // "oprf" | "agg"
+        eps: f64,
+        delta: f64,
+        sens: u32,
+        cap: u32,       // matchkey_cardinality_cap (oprf)
+        buckets: usize, // B (agg)
+        /// None = apply_dp_padding (three passes), Some(role) = one apply_dp_padding_pass excluding that helper
+        excluded: Option<Role>,
+        malicious: bool,
+        real_rows: usize,
+    }
+
+    async fn pad_rows<C: Context, T: crate::protocol::ipa_prf::oprf_padding::Paddable, const B: usize>(
+        ctx: C,
+        input: Vec<T>,
+        params: PaddingParameters,
+        excluded: Option<Role>,
+    ) -> Result<Vec<T>, Error> {
+        match excluded {
+            None => apply_dp_padding::<C, T, B>(ctx, input, &params).await,
+            Some(role) => apply_dp_padding_pass::<C, T, B>(ctx, input, role, &params).await,
+        }
+    }
+
+    fn check_padding(rec: &mut Recorder, idx: usize, case: PadCase, desc: &Value, n: u128, plain: &[(u128, u128, u128)], outs: [Vec<RowShares>; 3]) {
+        let sig_base = |kind: &str, why: &str| json!({"kind": kind, "padding": case.kind, "why": why, "single_pass": case.excluded.is_some()});
+        rec.eval();
+        let len = outs[0].len();
+        if outs[1].len() != len || outs[2].len() != len || len < plain.len() {
+            rec.violation("helpers hold different numbers of rows after padding", sig_base("dummy_rows", "row_count_differs"),
+                          json!({"desc": desc, "case": idx, "lengths": [outs[0].len(), outs[1].len(), outs[2].len()], "real_rows": plain.len()}));
+            return;
+        }
+        let passes: u128 = if case.excluded.is_some() { 1 } else { 3 };
+        let mut mk_mult: std::collections::HashMap<u128, u32> = std::collections::HashMap::new();
+        let mut per_bk: Vec<u128> = vec![0; 256];
+        for i in 0..len {
+            let field = |f: usize| -> [(u128, u128); 3] {
+                std::array::from_fn(|h| match f {
+                    0 => outs[h][i].0.unwrap_or((0, 0)),
+                    1 => outs[h][i].1,
+                    _ => outs[h][i].2,
+                })
+            };
+            let rec3 = [reconstruct3(field(0)), reconstruct3(field(1)), reconstruct3(field(2))];
+            let (mk, bk, v) = match rec3 {
+                [Ok(a), Ok(b), Ok(c)] => (a, b, c),
+                _ => {
+                    rec.violation("a row after padding is not a consistent replicated sharing", sig_base("dummy_rows", if i < plain.len() { "real_row_inconsistent" } else { "dummy_inconsistent_sharing" }),
+                                  json!({"desc": desc, "case": idx, "row": i, "shares": format!("{:x?}", [field(0), field(1), field(2)])}));
+                    return;
+                }
+            };
+            if i < plain.len() {
+                if (mk, bk, v) != (if case.kind == "oprf" { plain[i].0 } else { 0 }, plain[i].1, plain[i].2) {
+                    rec.violation("a real row was changed by padding", sig_base("dummy_rows", "real_row_changed"), json!({"desc": desc, "case": idx, "row": i}));
+                    return;
+                }
+                continue;
+            }
+            // dummy rows contribute nothing: value 0; OPRF dummies also carry breakdown key 0
+            if v != 0 || (case.kind == "oprf" && bk != 0) {
+                rec.violation("a dummy row carries a non-zero contribution", sig_base("dummy_rows", if v != 0 { "dummy_value_nonzero" } else { "dummy_breakdown_nonzero" }),
+                              json!({"desc": desc, "case": idx, "row": i, "match_key": format!("{mk:x}"), "breakdown_key": bk as u64, "value": v as u64}));
+                return;
+            }
+            if let Some(ex) = case.excluded {
+                let h = ex as usize;
+                let z = outs[h][i];
+                if z.0.unwrap_or((0, 0)) != (0, 0) || z.1 != (0, 0) || z.2 != (0, 0) {
+                    rec.violation("the excluded helper holds non-zero shares of a dummy row", sig_base("dummy_rows", "excluded_helper_nonzero"),
+                                  json!({"desc": desc, "case": idx, "row": i}));
+                    return;
+                }
+            }
+            if case.kind == "oprf" {
+                *mk_mult.entry(mk).or_insert(0) += 1;
+            } else {
+                if bk as usize >= case.buckets {
+                    rec.violation("a dummy row names a breakdown key outside the bucket range", sig_base("dummy_rows", "dummy_breakdown_out_of_range"),
+                                  json!({"desc": desc, "case": idx, "row": i, "breakdown_key": bk as u64}));
+                    return;
+                }
+                per_bk[bk as usize] += 1;
+            }
+            rec.count("dummy_rows_consistent_and_value_free");
+        }
+        // counts: every draw lies in 0..2n
+        if case.kind == "oprf" {
+            let mut by_card: std::collections::BTreeMap<u32, u128> = std::collections::BTreeMap::new();
+            for m in mk_mult.values() {
+                *by_card.entry(*m).or_insert(0) += 1;
+            }
+            if let Some((c, k)) = by_card.iter().find(|(c, k)| **c == 0 || **c > case.cap || **k > passes * 2 * n) {
+                rec.violation("number of dummy match keys of one cardinality is outside 0..2n per pass (or cardinality above the cap)", sig_base("dummy_rows", "dummy_count_out_of_range"),
+                              json!({"desc": desc, "case": idx, "cardinality": c, "distinct_match_keys": *k as u64, "bound": (passes * 2 * n) as u64}));
+                return;
+            }
+            rec.add("dummy_cardinality_groups_in_range", by_card.len() as u64);
+        } else {
+            if let Some(b) = (0..case.buckets).find(|b| per_bk[*b] > passes * 2 * n) {
+                rec.violation("number of dummy rows of one breakdown key is outside 0..2n per pass", sig_base("dummy_rows", "dummy_count_out_of_range"),
+                              json!({"desc": desc, "case": idx, "breakdown_key": b, "rows": per_bk[b] as u64, "bound": (passes * 2 * n) as u64}));
+                return;
+            }
+            rec.add("dummy_breakdown_counts_in_range", case.buckets as u64);
+        }
+        rec.add("dummy_rows_seen", (len - plain.len()) as u64);
+        rec.distinct(&("pad", case.kind, case.eps.to_bits(), case.delta.to_bits(), case.sens, case.cap, case.buckets, case.excluded.map(|r| r as usize), case.malicious, case.real_rows));
+        if rec.want_sample() {
+            rec.sample(serde_json::json!({"padding_case": {"kind": format!("{:?}", case.kind), "epsilon": case.eps, "delta": case.delta, "sensitivity": case.sens, "buckets": case.buckets, "malicious": case.malicious, "real_rows": case.real_rows}}));
+        }
+        rec.seen("padding_shapes", format!("{}/{}/{}", case.kind, case.excluded.map_or("three-pass".to_string(), |r| format!("excl-{r:?}")), if case.malicious { "malicious" } else { "semi-honest" }));
+        if rec.want_sample() {
+            rec.sample(json!({"desc": desc, "rows_after_padding": len, "dummy_rows": len - plain.len()}));
+        }
+    }
+
+    #[test]
+    fn verif_c12_padding_rows() {
+        let env = vlib::env();
+        let mut rec = Recorder::new(P, "verif_c12_padding_rows");
+        let only = replay_case();
+        let mut cases: Vec<PadCase> = Vec::new();
+        let oprf_params: &[(f64, f64, u32, u32)] = &[(5.0, 1e-6, 2, 10), (10.0, 1e-4, 2, 3), (1.0, 1e-6, 2, 4)];
+        let agg_params: &[(f64, f64, u32, usize)] = &[(5.0, 1e-6, 10, 32), (10.0, 1e-4, 3, 256), (2.0, 1e-6, 2, 32)];
+        let reps = env.pick(2, 12);
+        for rep in 0..reps {
+            for malicious in [false, true] {
+                for excluded in [None, Some(Role::H1), Some(Role::H2), Some(Role::H3)] {
+                    for (pi, (e, d, s, c)) in oprf_params.iter().enumerate() {
+                        if malicious && excluded.is_some() && pi > 0 && !env.thorough {
+                            continue;
+                        }
+                        cases.push(PadCase { kind: "oprf", eps: *e, delta: *d, sens: *s, cap: *c, buckets: 0, excluded, malicious, real_rows: [0, 1, 5][(pi + rep) % 3] });
+                    }
+                    for (pi, (e, d, s, b)) in agg_params.iter().enumerate() {
+                        if malicious && excluded.is_some() && pi > 0 && !env.thorough {
+                            continue;
+                        }
+                        cases.push(PadCase { kind: "agg", eps: *e, delta: *d, sens: *s, cap: 0, buckets: *b, excluded, malicious, real_rows: [5, 0, 1][(pi + rep) % 3] });
+                    }
+                }
+            }
+        }
+        for (idx, c) in cases.iter().enumerate() {
+            if !env.mine(idx) || only.is_some_and(|x| x != idx) {
+                continue;
+            }
+            let c = *c;
+            let (n, m_hi, m_lo) = smallest_n_f64(c.eps, c.delta, c.sens);
+            if m_hi.min(m_lo) < AMBIGUITY {
+                rec.count("padding_case_boundary_ambiguous_skipped");
+                continue;
+            }
+            let mut r = VRng::new(env.seed ^ 0xC12_0006, idx as u64);
+            let (rows, agg, plain) = make_rows(c.real_rows, &mut r);
+            let world_seed = env.seed.wrapping_mul(0x2545_F491).wrapping_add(idx as u64);
+            let desc = json!({"case": idx, "padding": c.kind, "epsilon": c.eps, "delta": c.delta, "sensitivity": c.sens, "cardinality_cap": c.cap, "buckets": c.buckets,
+                              "excluded": c.excluded.map(|r| format!("{r:?}")), "malicious": c.malicious, "real_rows": c.real_rows, "world_seed": world_seed, "n": n});
+            let params = if c.kind == "oprf" {
+                PaddingParameters {
+                    oprf_padding: OPRFPadding::Parameters { oprf_epsilon: c.eps, oprf_delta: c.delta, matchkey_cardinality_cap: c.cap, oprf_padding_sensitivity: c.sens },
+                    aggregation_padding: AggregationPadding::NoAggPadding,
+                }
+            } else {
+                PaddingParameters {
+                    oprf_padding: OPRFPadding::NoOPRFPadding,
+                    aggregation_padding: AggregationPadding::Parameters { aggregation_epsilon: c.eps, aggregation_delta: c.delta, aggregation_padding_sensitivity: c.sens },
+                }
+            };
+            rec.eval();
+            let shares: Option<Result<[Vec<RowShares>; 3], Vec<String>>> = if c.kind == "oprf" {
+                world3!(world_seed, c.malicious, rows, |ctx, inp| pad_rows::<_, Row, 32>(ctx, inp, params, c.excluded)).map(|outs| match &outs {
+                    [Out::Ok(a), Out::Ok(b), Out::Ok(cc)] => Ok([a, b, cc].map(|v| v.iter().map(row_shares).collect())),
+                    _ => Err(outs.iter().map(Out::class).collect()),
+                })
+            } else if c.buckets == 32 {
+                world3!(world_seed, c.malicious, agg, |ctx, inp| pad_rows::<_, AggRow, 32>(ctx, inp, params, c.excluded)).map(|outs| match &outs {
+                    [Out::Ok(a), Out::Ok(b), Out::Ok(cc)] => Ok([a, b, cc].map(|v| v.iter().map(agg_row_shares).collect())),
+                    _ => Err(outs.iter().map(Out::class).collect()),
+                })
+            } else {
+                world3!(world_seed, c.malicious, agg, |ctx, inp| pad_rows::<_, AggRow, 256>(ctx, inp, params, c.excluded)).map(|outs| match &outs {
+                    [Out::Ok(a), Out::Ok(b), Out::Ok(cc)] => Ok([a, b, cc].map(|v| v.iter().map(agg_row_shares).collect())),
+                    _ => Err(outs.iter().map(Out::class).collect()),
+                })
+            };
+            match shares {
+                None => rec.violation("padding did not complete", json!({"kind": "did_not_complete", "what": "apply_dp_padding", "padding": c.kind}), json!({"desc": desc, "case": idx})),
+                Some(Err(classes)) => rec.violation("padding failed inside the documented parameter range",
+                                                    json!({"kind": "padding_failed", "padding": c.kind, "outcomes": classes}), json!({"desc": desc, "case": idx})),
+                Some(Ok(outs)) => check_padding(&mut rec, idx, c, &desc, u128::from(n), &plain, outs),
+            }
+        }
+        rec.finish();
+    }
+}
